@@ -225,12 +225,13 @@ aliquot_intervener_remover_regex = re.compile(
     fr"""
     (?P<aliquot1>({aliquot_simple})+)  # first aliquot component
     (
-        \s*     # any amount of whitespace (to be removed)
-        
-        # 'of the' or 'of' (to be removed)
-        (\s+|of|o|f|o+f+)\s*(t+h+e+|t+e+h+|t+h+|t+)?
-        
-        \s*     # any amount of whitespace (to be removed)
+        # Whitespace and/or 'of' or 'of the' (all to be removed). Written so
+        # that each blank can be matched in one place only: either
+        # whitespace (then optionally 'of', then optionally 'the') ...
+        \s+((of|o|f|o+f+)\s*)?((t+h+e+|t+e+h+|t+h+|t+)\s*)?
+        |
+        # ... or 'of' (then optionally 'the') butted against the aliquot.
+        (of|o|f|o+f+)\s*((t+h+e+|t+e+h+|t+h+|t+)\s*)?
     )
     (?P<aliquot2>{aliquot_simple})  # second aliquot component
     """, re.IGNORECASE | re.VERBOSE)
